@@ -242,6 +242,12 @@ func Run(c *Case) *vkit.Outcome {
 		o.Failf("", "%s: read: %v", desc, err)
 		return o
 	}
+	// what the log holds now, copied (the memory store hands out its own records)
+	type recCopy struct{ typ, data string }
+	logBefore := make([]recCopy, len(all))
+	for i, se := range all {
+		logBefore[i] = recCopy{se.Type, string(se.Data)}
+	}
 	wantName := sh.eventType()
 	srcName := wantName
 	if c.API == "upcast-target" {
@@ -334,6 +340,20 @@ func Run(c *Case) *vkit.Outcome {
 		}
 		if fmt.Sprint(got) != fmt.Sprint(want) {
 			o.Failf("", "%s: a chain UpSource -> T does not reach SubscribeWithReplay[T]: delivered %v, expected %v", desc, got, want)
+		}
+	}
+	if len(o.Viol) == 0 {
+		// reading, replaying and upcasting never change what is persisted
+		after, _, rerr := store.Read(ctx, eventbus.OffsetOldest, 0)
+		if rerr != nil || len(after) < len(logBefore) {
+			o.Failf("", "%s: the log shrank or cannot be read after the typed APIs were used (%d -> %d records, err %v)", desc, len(logBefore), len(after), rerr)
+		} else {
+			for i, b := range logBefore {
+				if after[i].Type != b.typ || string(after[i].Data) != b.data {
+					o.Failf("", "%s: record %d was persisted as %q %s; after the typed API ran (upcasting replay on a second bus) the store holds %q %s for it - the persisted name is no longer the one EventType reported", desc, i, b.typ, b.data, after[i].Type, after[i].Data)
+					break
+				}
+			}
 		}
 	}
 	if len(o.Viol) == 0 {
